@@ -54,6 +54,15 @@ class CriticalPathCalculator:
             else:
                 self.__insert_task(t)
 
+    @staticmethod
+    def __get_leaves(task: Task) -> List[Task]:
+        if len(task.children) == 0:
+            return [task]
+        res = []
+        for ch in task.children:
+            res += CriticalPathCalculator.__get_leaves(ch)
+        return res
+
     def __insert_task(self, task: Task):
         if len(task.children) > 0:
             return
@@ -63,8 +72,15 @@ class CriticalPathCalculator:
 
         self.__tasks[task.id] = task
 
+        # Only leaf tasks are works: predecessors of parent tasks bind the task too
+        # and every predecessor with children is replaced by its leaf tasks
+        predecessors = []
+        for t in [task] + [p for p in task.all_parents]:
+            for p in t.predecessors:
+                predecessors += self.__get_leaves(p)
+
         p_ids = []
-        for p in task.predecessors:
+        for p in predecessors:
             p_ids.append(p.id)
             self.__insert_task(p)
 
